@@ -777,7 +777,126 @@ func collectorNonEmpty(c *Ctx, x *extractor, f *ssa.Function, l *Loop, cur ssa.V
 			}
 		}
 	}
+	// (c) the first iteration is certain (the loop's own exit test is decided by what is known
+	// before the loop) and every iteration collects before it can leave towards success
+	if firstIterationCertain(l) {
+		var collectBlocks []*ssa.BasicBlock
+		for _, b := range l.sortedBlocks() {
+			for _, ins := range b.Instrs {
+				switch y := ins.(type) {
+				case *ssa.Call:
+					if bi, ok := y.Common().Value.(*ssa.Builtin); ok && bi.Name() == "append" {
+						collectBlocks = append(collectBlocks, b)
+					}
+				case *ssa.MapUpdate:
+					collectBlocks = append(collectBlocks, b)
+				}
+			}
+		}
+		okAll := len(collectBlocks) > 0
+		for _, b := range l.sortedBlocks() {
+			for _, sx := range b.Succs {
+				leaves := !l.Blocks[sx] && b != l.Header
+				back := sx == l.Header
+				if !leaves && !back {
+					continue
+				}
+				if leaves && !reachesSuccess(sx, l) {
+					continue // an error exit
+				}
+				dom := false
+				for _, cb := range collectBlocks {
+					if cb == b || cb.Dominates(b) {
+						dom = true
+					}
+				}
+				if !dom {
+					okAll = false
+				}
+			}
+		}
+		if okAll {
+			return true, "the first iteration is certain and every iteration collects an element before continuing or leaving"
+		}
+	}
 	return false, "no len != 0 test before success and no mandatory first element"
+}
+
+// firstIterationCertain: on the edge entering the loop, the header's exit condition is refuted
+// by the facts that hold before the loop (phis read at their entry value).
+func firstIterationCertain(l *Loop) bool {
+	h := l.Header
+	if len(h.Instrs) == 0 {
+		return false
+	}
+	iff, ok := h.Instrs[len(h.Instrs)-1].(*ssa.If)
+	if !ok || len(h.Succs) != 2 {
+		return false
+	}
+	exitIdx := -1
+	for i, sx := range h.Succs {
+		if !l.Blocks[sx] {
+			exitIdx = i
+		}
+	}
+	if exitIdx < 0 {
+		return false
+	}
+	var pre *ssa.BasicBlock
+	preIdx := -1
+	for i, p := range h.Preds {
+		if !l.Blocks[p] {
+			if pre != nil {
+				return false
+			}
+			pre, preIdx = p, i
+		}
+	}
+	if pre == nil {
+		return false
+	}
+	entryVal := func(v ssa.Value) ssa.Value {
+		if phi, ok := v.(*ssa.Phi); ok && phi.Block() == h && preIdx < len(phi.Edges) {
+			return strip(phi.Edges[preIdx])
+		}
+		return v
+	}
+	known := append(append([]Atom{}, factsAt(pre)...), edgeFacts(pre, succIndex(pre, h))...)
+	// the exit is taken when all atoms of the exit direction hold; refuting one of them suffices
+	for _, at := range atomsOf(iff.Cond, exitIdx == 0) {
+		x, y := entryVal(at.X), at.Y
+		if y != nil {
+			y = entryVal(y)
+		}
+		for _, k := range known {
+			if k.Kind == at.Kind && k.Pos != at.Pos && strip(k.X) == x && (at.Y == nil || (k.Y != nil && sameVal(strip(k.Y), y))) {
+				return true
+			}
+		}
+	}
+	return false
+}
+
+// reachesSuccess: from block b (outside the loop) a success return or a handler call is reachable.
+func reachesSuccess(b *ssa.BasicBlock, l *Loop) bool {
+	for rb := range reachableBlocks(b, nil) {
+		if l.Blocks[rb] {
+			continue
+		}
+		for _, ins := range rb.Instrs {
+			switch x := ins.(type) {
+			case *ssa.Return:
+				if len(x.Results) > 0 && isNilConst(retOperand(x, len(x.Results)-1)) {
+					return true
+				}
+			case *ssa.Call:
+				if x.Common().IsInvoke() && isHandlerIface(x.Common().Value.Type().String()) {
+					return true
+				}
+			}
+		}
+	}
+	return false
 }
 
 // feedsLoop: the value of the read flows (through phis/struct literals) into an append or map update in the loop.
@@ -1308,10 +1427,13 @@ func ruleIntegersNotThroughFloats(c *Ctx, scope []*ssa.Function) {
 				return
 			}
 			if from.Info()&types.IsFloat != 0 && to.Info()&types.IsInteger != 0 {
-				n++
 				if _, isC := cv.X.(*ssa.Const); isC {
 					return
 				}
+				if !derivesFromParseFloat(cv.X, 0, map[ssa.Value]bool{}) {
+					return // a duration in seconds, a ratio: not a decoded argument
+				}
+				n++
 				bad++
 				c.bad(rid, fmt.Sprintf("%s/float-to-int#%d", c.P.key(fn), bad), c.P.instrPos(cv), "a floating-point value is converted to an integer on the way to the handler: fractional and exponent tokens are accepted where an integer is required, and values beyond 2^63 convert to an arbitrary integer")
 			}
@@ -1321,4 +1443,51 @@ func ruleIntegersNotThroughFloats(c *Ctx, scope []*ssa.Function) {
 	if bad == 0 {
 		c.ok(rid, "no-float-to-int", "", "no integer argument is derived from a floating-point value")
 	}
+}
+
+// derivesFromParseFloat: the value is (computed from) a result of strconv.ParseFloat, possibly
+// returned through repository helpers.
+func derivesFromParseFloat(v ssa.Value, d int, seen map[ssa.Value]bool) bool {
+	if v == nil || d > 6 || seen[v] {
+		return false
+	}
+	seen[v] = true
+	switch x := v.(type) {
+	case *ssa.Extract:
+		return derivesFromParseFloat(x.Tuple, d+1, seen)
+	case *ssa.Call:
+		if calleeName(x.Common()) == "strconv.ParseFloat" {
+			return true
+		}
+		if h := staticCallee(x.Common()); h != nil && h.Blocks != nil && inRepo(h) {
+			for _, r := range returnsOf(h) {
+				for _, res := range r.Results {
+					if isFloatType(res.Type()) && derivesFromParseFloat(res, d+1, seen) {
+						return true
+					}
+				}
+			}
+		}
+	case *ssa.Phi:
+		for _, e := range x.Edges {
+			if derivesFromParseFloat(e, d+1, seen) {
+				return true
+			}
+		}
+	case *ssa.BinOp:
+		return derivesFromParseFloat(x.X, d+1, seen) || derivesFromParseFloat(x.Y, d+1, seen)
+	case *ssa.UnOp:
+		return derivesFromParseFloat(x.X, d+1, seen)
+	case *ssa.Convert:
+		return derivesFromParseFloat(x.X, d+1, seen)
+	case *ssa.Parameter:
+		// a float parameter of a helper: conservatively an argument if any caller passes one
+		return isFloatType(x.Type())
+	}
+	return false
+}
+
+func isFloatType(t types.Type) bool {
+	b, ok := t.Underlying().(*types.Basic)
+	return ok && b.Info()&types.IsFloat != 0
 }
